@@ -41,7 +41,10 @@ RULE = ("a case is a block of random histories of one family (state / indexed / 
 ASSUMPTIONS = ["the twin is specified by the public getters of the live states (lo/hi/att/roi.xmin/...) and by the values "
                "the harness itself passed to glue; a setter that silently stores something else than it was given is "
                "outside this property",
-               "equality is exact (same code, same inputs), NaN == NaN; an exception class counts as an outcome",
+               "equality is exact (same code, same inputs), NaN == NaN; an exception class counts as an outcome; only "
+               "statistics in histories whose live arrays have another memory layout than the twin's contiguous copies "
+               "are compared relative to the column's magnitude (1e-9; 1e-5 for 4-byte floats), because numpy's summation "
+               "order depends on the layout",
                "in-place edits of a subset state that is shown in a viewer, without any message, are outside the viewer "
                "families (the layer cannot know); viewer histories replace the state through Subset.subset_state",
                "random_subset statistics and arrays returned by glue and then modified in place by the caller are not "
@@ -78,7 +81,7 @@ def exec_read(w, r):
     if k == "mask":
         via = r["via"]
         if via == "subset":
-            sub = w.subsets[(r["s"], r["d"])]
+            sub = (w.subsets2 if r.get("g2") else w.subsets)[(r["s"], r["d"])]
             return outcome(lambda: sub.to_mask(view))
         if via == "get_mask":
             return outcome(lambda: d.get_mask(st, view=view))
@@ -131,7 +134,28 @@ def describe_read(r):
 
 VIEWS_HASHABLE = ["none", "none", "slice_tuple_full", "slice_tuple_short", "int_slice_mix", "all_int", "empty_slice"]
 VIEWS_1D = ["none", "none", "bare_slice", "slice_tuple_full", "slice_tuple_full", "empty_slice", "all_int"]
-VIEWS_UNHASHABLE = ["index_arrays", "bool_mask"]
+VIEWS_UNHASHABLE = ["index_arrays", "bool_mask", "dup_index"]
+VIEWS_EXTRA = ["neg_int", "backward_slice", "dup_index"]
+
+
+def make_view_x(rng, shape, kind):
+    if kind == "neg_int":
+        v = [slice(None)] * len(shape)
+        a = rng.randrange(len(shape))
+        v[a] = -rng.randint(1, shape[a])
+        return tuple(v)
+    if kind == "backward_slice":
+        v = []
+        for n in shape:
+            v.append(rng.choice([slice(None, None, -1), slice(n - 1, None, -2), slice(None), slice(None, 0, -1)]))
+        return tuple(v)
+    if kind == "dup_index":
+        k = rng.randint(2, 6)
+        cols = [[rng.randrange(n) for _ in range(k)] for n in shape]
+        for c in cols:
+            c[-1] = c[0]            # a duplicate, and not sorted
+        return tuple(np.array(c) for c in cols)
+    return make_view(rng, shape, kind)
 
 
 def gen_read(rng, H, s, di, registered):
@@ -154,8 +178,8 @@ def gen_read(rng, H, s, di, registered):
             r["vk"] = "none"
             r["view"] = None
         else:
-            r["vk"] = rng.choice((VIEWS_1D if m.ndim == 1 else VIEWS_HASHABLE) * 2 + VIEWS_UNHASHABLE)
-            r["view"] = make_view(rng, m.shape, r["vk"])
+            r["vk"] = rng.choice((VIEWS_1D if m.ndim == 1 else VIEWS_HASHABLE) * 2 + VIEWS_UNHASHABLE + VIEWS_EXTRA)
+            r["view"] = make_view_x(rng, m.shape, r["vk"])
     elif k == "index_list":
         pass
     elif k == "subset_values":
@@ -167,12 +191,12 @@ def gen_read(rng, H, s, di, registered):
         r["axis"] = None if m.ndim == 1 else rng.choice([None, None] + list(range(m.ndim)) + [tuple(range(1, m.ndim))])
         r["finite"] = rng.random() < 0.8
         if isinstance(r["axis"], tuple) and rng.random() < 0.6:
-            r["n_chunk_max"] = rng.choice([2, 3, 5])
+            r["n_chunk_max"] = rng.choice([2, 3, 5, m.size - 1, m.size, m.size + 1])     # below / at / above the size
     elif k == "hist":
         r["cid"] = rng.choice(num)
-        lo = rng.choice([-6.0, -3.0, 0.0])
-        r["range"] = [lo, lo + rng.choice([4.0, 6.0, 12.0])]
-        r["bins"] = rng.choice([2, 3, 5])
+        lo = rng.choice([-6.0, -3.0, 0.0]) * W.SCALE
+        r["range"] = [lo, lo + rng.choice([4.0, 6.0, 12.0]) * W.SCALE]
+        r["bins"] = rng.choice([1, 2, 3, 5])
     elif k == "value":
         cands = list(num)
         if m.derived:
@@ -180,8 +204,9 @@ def gen_read(rng, H, s, di, registered):
         if m.coords is not None:
             cands += [["w", di, a] for a in range(m.ndim)]
         r["cid"] = rng.choice(cands)
-        r["vk"] = rng.choice(["none", "slice_tuple_full", "slice_tuple_full" if m.ndim == 1 else "int_slice_mix"])
-        r["view"] = make_view(rng, m.shape, r["vk"])
+        r["vk"] = rng.choice(["none", "none", "slice_tuple_full", "slice_tuple_full" if m.ndim == 1 else "int_slice_mix",
+                              "backward_slice", "neg_int", "dup_index", "bool_mask"])
+        r["view"] = make_view_x(rng, m.shape, r["vk"])
     return r
 
 
@@ -209,22 +234,46 @@ def flavour_world(rng, flavour):
     H.links_pool, H.links_active = [], []
     H.cross_refs = {}
     H.with_dc = True
+    H.joins = []
+    # classes of the widening round: magnitude of the float columns / bounds, dtype variants, memory layouts
+    H.scale = rng.choice([1.0, 1.0, 1.0, 1e-10, 1e12]) if flavour in ("table", "cube", "linked", "joined") else 1.0
+    W.SCALE = H.scale
+    H.dtypes = rng.random() < 0.4
+    H.layouts = rng.random() < 0.5
+    dt = H.dtypes
     if flavour == "table":
-        n = rng.randint(4, 8)
-        H.models = [W.gen_data_model(rng, "d0", (n,), ["v", "w", "i", "c", "c2"], derived=rng.random() < 0.4)]
+        r = rng.random()
+        n = rng.randint(100, 150) if r < 0.08 else (1 if r < 0.12 else rng.randint(4, 8))
+        H.size_class = "rows>=100" if n >= 100 else ("single_row" if n == 1 else "small")
+        H.models = [W.gen_data_model(rng, "d0", (n,), ["v", "w", "i", "c", "c2"], derived=rng.random() < 0.4, dtypes=dt)]
+        if n >= 100:      # duplicates, as in real tables
+            col = H.models[0].get("v")
+            col[rng.randrange(n)::7] = col[0]
         H.with_dc = rng.random() < 0.8
     elif flavour == "cube":
         nd = rng.choice([2, 2, 3])
-        shape = tuple(rng.randint(2, 4) for _ in range(nd))
+        shape = [rng.randint(2, 4) for _ in range(nd)]
+        if rng.random() < 0.12:
+            shape[rng.randrange(nd)] = 1          # length-1 axis
+        shape = tuple(shape)
+        H.size_class = "unit_axis" if 1 in shape else "small"
         coords = W.gen_coords(rng, nd) if rng.random() < 0.4 else None
-        H.models = [W.gen_data_model(rng, "d0", shape, ["v", "w", "i", "f", "g"], coords=coords,
-                                     derived=rng.random() < 0.3)]
+        H.models = [W.gen_data_model(rng, "d0", shape, ["v", "w", "i", "f", "g", "b"], coords=coords,
+                                     derived=rng.random() < 0.3, dtypes=dt)]
         H.with_dc = rng.random() < 0.8
+    elif flavour == "joined":
+        # d0 and d1 are joined on integer key columns: states over d1's columns select rows of d0 through the join
+        n, m2 = rng.randint(4, 8), rng.randint(3, 7)
+        a = W.gen_data_model(rng, "d0", (n,), ["v", "w", "i"], dtypes=dt)
+        b = W.gen_data_model(rng, "d1", (m2,), ["p", "q", "k"], dtypes=dt)
+        a.restrict, b.restrict = ["v", "w"], ["p", "q"]
+        H.models = [a, b]
+        H.joins = [(0, "i", 1, "k")]
     elif flavour == "linked":
         n = rng.randint(4, 7)
         m = n if rng.random() < 0.5 else rng.randint(3, 7)
-        a = W.gen_data_model(rng, "d0", (n,), ["v", "w", "i", "c", "c2"])
-        b = W.gen_data_model(rng, "d1", (m,), ["p", "q"])
+        a = W.gen_data_model(rng, "d0", (n,), ["v", "w", "i", "c", "c2"], dtypes=dt)
+        b = W.gen_data_model(rng, "d1", (m,), ["p", "q"], dtypes=dt)
         a.restrict, b.restrict = ["v", "w"], ["p", "q"]
         H.models = [a, b]
         H.links_pool = [((0, "w"), (1, "p"), None), ((0, "v"), (1, "q"), None), ((0, "w"), (1, "q"), None),
@@ -262,7 +311,7 @@ def flavour_world(rng, flavour):
 
 def eval_targets(H, k):
     """Datasets on which state k is evaluated."""
-    if H.flavour in ("linked", "aligned"):
+    if H.flavour in ("linked", "aligned", "joined"):
         return list(range(len(H.models)))
     return [H.home[k]]
 
@@ -303,16 +352,26 @@ def state_has(desc, kind):
         return state_has(desc[1], kind)
     if desc[0] == "multior":
         return any(state_has(c, kind) for c in desc[1])
+    if desc[0] == "multior_shared":
+        return state_has(desc[1], kind)
     return False
 
 
 def twin_of(H):
     rm = W.RefMap(H.live.datas)
     H.snap = [W.snapshot(s, rm) for s in H.live.states]
-    return W.build_world(H.models, H.snap, H.links_pool, H.links_active, H.with_dc, registered=H.registered)
+    return W.build_world(H.models, H.snap, H.links_pool, H.links_active, H.with_dc, registered=H.registered,
+                         joins=H.joins)
 
 
 def run_state_history(ctx, flavour, hid):
+    try:
+        _run_state_history(ctx, flavour, hid)
+    finally:
+        W.SCALE = 1.0
+
+
+def _run_state_history(ctx, flavour, hid):
     rng = ctx.rng
     H = flavour_world(rng, flavour)
     H.ctx = ctx
@@ -321,20 +380,33 @@ def run_state_history(ctx, flavour, hid):
     for k in range(ns):
         di = rng.randrange(len(H.models))
         depth = rng.choice([0, 0, 1, 1, 2, 2, 3])
-        kinds = ("ineq", "range", "multirange", "roi") if flavour == "linked" else None
+        kinds = ("ineq", "range", "multirange", "roi") if flavour in ("linked", "joined") else None
         if flavour == "aligned":
             depth = rng.choice([0, 0, 0, 1, 1, 2])
             kinds = ("slice", "slice", "pixslice", "pixslice", "ineq", "range", "roi", "mask")
         H.descs.append(W.gen_state(rng, H.models, di, depth, kinds))
         H.home.append(di)
     H.registered = [k for k in range(ns) if rng.random() < 0.5]
-    H.live = W.build_world(H.models, H.descs, H.links_pool, H.links_active, H.with_dc, H.registered)
+    H.shared_group = None
+    if H.registered and rng.random() < 0.25:
+        H.shared_group = rng.choice(H.registered)
+        H.registered = H.registered + [H.shared_group]      # a second group shares the state object
+        ctx.count("class:state_object_shared_by_two_groups")
+    H.live = W.build_world(H.models, H.descs, H.links_pool, H.links_active, H.with_dc, H.registered,
+                           layout_rng=rng if H.layouts else None, joins=H.joins)
     H.probe = Probe(H.live.dc.hub) if H.with_dc else None
     H.mutlog = []
     H.touch = {}
     H.poisoned = set()
+    H.undo, H.data_undo, H.last_mut, H.extra_comps = [], [], None, []
     ctx.count("histories:state:" + flavour)
     ctx.count("histories")
+    ctx.count("class:scale=%g" % H.scale)
+    ctx.count("class:dtype_variants" if H.dtypes else "class:dtype_default")
+    ctx.count("class:layout_variants" if H.layouts else "class:layout_contiguous")
+    ctx.count("class:size:" + getattr(H, "size_class", "small"))
+    if max(len(list(W.walk(s))) for s in H.live.states) >= 7:
+        ctx.count("class:state_with_7_or_more_nodes")
 
     # ---- initial reads (warm the caches)
     H.reads = []
@@ -345,6 +417,10 @@ def run_state_history(ctx, flavour, hid):
     for di in range(len(H.models)):
         for _ in range(2):
             H.reads.append(gen_read(rng, H, None, di, False))
+    if H.shared_group is not None:
+        for di in eval_targets(H, H.shared_group):
+            H.reads.append({"k": "mask", "d": di, "s": H.shared_group, "via": "subset", "g2": True, "vk": "none",
+                            "view": None, "last": None, "nreads": 0})
     try:
         twin = twin_of(H)
     except Exception as e:
@@ -359,6 +435,9 @@ def run_state_history(ctx, flavour, hid):
             ctx.count("no_applicable_mutation")
             continue
         ok = perform(H, mut)
+        if ok and "then" in mut:       # second half of a pair of near-equal assignments
+            nxt = dict(mut["then"], s=mut["s"], kind=mut["kind"])
+            ok = perform(H, nxt)
         if not ok:
             break
         # a few new reads join the warm set
@@ -440,12 +519,59 @@ def choose_mutation(rng, H):
                     "new_shape": new_shape, "extra": rng.random() < 0.3}
         if not uv_ok:
             H.ctx.count("excluded:update_values_from_data_on_data_with_coords_or_derived")
-        names = m.names("float", "int", "pos")
+        names = [n for n in m.names("float", "int", "pos") if n in W.COMP_KINDS]
         if m.restrict is not None and any(isinstance(n, str) for n in m.restrict):
             names = [n for n in m.restrict if isinstance(n, str)]
+            if fl == "joined":
+                names = names + ["i" if di == 0 else "k"]       # the key columns
         chosen = rng.sample(names, rng.randint(1, min(2, len(names))))
-        return {"op": "update_components", "kind": "update_components", "d": di, "names": chosen,
-                "key": rng.choice(["cid", "component"])}
+        base = {"op": "update_components", "kind": "update_components", "d": di, "names": chosen,
+                "key": rng.choice(["cid", "component"]), "dtype": H.dtypes and rng.random() < 0.5,
+                "layout": H.layouts and rng.random() < 0.7}
+        r2 = rng.random()
+        if r2 < 0.10:       # replace the column under its existing ComponentID
+            return dict(base, op="add_component_existing_cid", kind="add_component_existing_cid", names=chosen[:1])
+        if r2 < 0.15 and m.derived:
+            cands = [n for n in m.names("float", "int") if n in ("v", "w", "i")]
+            return {"op": "add_component_link_existing_cid", "kind": "add_component_link_existing_cid", "d": di,
+                    "spec": [rng.choice(cands), rng.choice([2, 3, -1, 0.5]), rng.choice(cands)]}
+        if r2 < 0.22:       # fault: a later entry of the mapping has the wrong shape
+            bad = rng.choice([n for n in names if n not in chosen] or chosen)
+            return dict(base, kind="update_components_raised", variant=rng.choice(["bad_last", "bad_last", "bad_first"]),
+                        bad=bad)
+        if r2 < 0.25:
+            return dict(base, names=[], variant="empty_mapping")
+        if r2 < 0.31 and H.last_mut is not None and H.last_mut["op"] == "update_components" and H.last_mut["d"] == di:
+            return dict(base, names=list(H.last_mut["names"]), variant="same_values_again")
+        if r2 < 0.37 and any(u[0] == di for u in H.data_undo):
+            return dict(base, names=[], variant="back_to_earlier_values")
+        if r2 < 0.45:
+            tgt = nudge_target(rng, H, di)
+            if tgt is not None:
+                return dict(base, names=[tgt[0]], variant="near_equal_values", nudge=tgt)
+        if r2 < 0.52 and H.probe is not None and len(names) > 1:
+            return dict(base, variant="reentrant_update", inner=[rng.choice([n for n in names if n not in chosen] or names)])
+        if r2 < 0.60 and fl in ("table", "cube"):
+            return {"op": "component_bookkeeping", "kind": "component_bookkeeping", "d": di,
+                    "how": rng.choice(["reorder", "add", "add", "remove"])}
+        removable = [k for k in H.registered if k != getattr(H, "shared_group", None)]
+        if r2 < 0.64 and H.with_dc and removable and fl in ("table", "cube"):
+            return {"op": "remove_subset_group", "kind": "remove_subset_group", "s": None, "k": rng.choice(removable)}
+        if r2 < 0.68 and H.with_dc:
+            return {"op": "dc_remove_readd", "kind": "dc_remove_readd", "d": di}
+        return base
+    r3 = rng.random()
+    if r3 < 0.10 and H.undo:
+        spec = dict(H.undo.pop(rng.randrange(len(H.undo))))
+        if spec["s"] in alive:
+            try:
+                if type(W.node_at(H.live.states[spec["s"]], spec["path"])).__name__ == spec["node"]:
+                    return spec
+            except (IndexError, AttributeError):
+                pass
+    if r3 < 0.17 and H.last_mut is not None and H.last_mut["op"] == "setter" and H.last_mut.get("s") in alive \
+            and H.last_mut.get("vkind") in ("num", "ref", "op", "pairs", "codes", "list"):
+        return dict({k: v for k, v in H.last_mut.items() if k != "then"}, twice=True)
     k = rng.choice(alive)
     prefer = rng.choice([None, None, None, "move_to", "roi_edit", "roi_edit"])
     spec = W.gen_state_mutation(rng, H.live.states[k], H.models, H.home[k], prefer)
@@ -456,6 +582,35 @@ def choose_mutation(rng, H):
     return spec
 
 
+def nudge_target(rng, H, di):
+    """(column, threshold) of an inequality / range bound over a float column of dataset di, at any depth of any state."""
+    found = []
+
+    def visit(desc):
+        k = desc[0]
+        if k == "ineq":
+            for a, b in ((desc[1], desc[3]), (desc[3], desc[1])):
+                if a[0] == "c" and a[1] == di and b[0] == "num":
+                    found.append((a[2], b[1]))
+        elif k == "range" and desc[3][0] == "c" and desc[3][1] == di:
+            found.append((desc[3][2], desc[rng.choice([1, 2])]))
+        elif k in W.BINOPS:
+            visit(desc[1])
+            visit(desc[2])
+        elif k in ("not", "multior_shared"):
+            visit(desc[1])
+        elif k == "multior":
+            for c in desc[1]:
+                visit(c)
+
+    for sd in getattr(H, "snap", H.descs):
+        visit(sd)
+    m = H.models[di]
+    found = [(n, t) for n, t in found if n in W.COMP_KINDS and m.kind(n) in ("float", "pos") and t != 0
+             and np.isfinite(float(t))]
+    return rng.choice(found) if found else None
+
+
 def perform(H, mut):
     """Apply the mutation to the live world (and to the model), then verify all reads.  False = history abandoned."""
     ctx, rng, live = H.ctx, H.ctx.rng, H.live
@@ -463,44 +618,130 @@ def perform(H, mut):
     H.mutlog.append({k: v for k, v in mut.items() if k != "arrays"})
     ctx.event("mutation", H.mutlog[-1])
     ctx.count("mutations:" + mut["kind"])
-    if op in ("update_components", "update_values_from_data"):
+    if op in ("update_components", "update_values_from_data", "add_component_existing_cid",
+              "add_component_link_existing_cid"):
         di = mut["d"]
         m = H.models[di]
         d = live.datas[di]
-        if op == "update_components":
+        variant = mut.get("variant")
+        inner_call = None
+        expect_raise = False
+        if variant:
+            ctx.count("mutations:variant:" + variant)
+        if op in ("update_components", "add_component_existing_cid"):
             new = {}
-            for n in mut["names"]:
-                kind = W.COMP_KINDS[n]
-                new[n] = W.gen_values(rng, kind, m.shape)
+            if variant == "same_values_again":
+                new = {n: np.array(m.get(n)) for n in mut["names"]}
+            elif variant == "back_to_earlier_values":
+                idx = [i for i, u in enumerate(H.data_undo) if u[0] == di]
+                new = {n: a for n, a in H.data_undo.pop(rng.choice(idx))[1].items()
+                       if a.shape == m.shape and n in [c[0] for c in m.comps]}
+                mut["names"] = sorted(new)
+            elif variant == "near_equal_values":
+                # two successive updates of one element to either side of a bound, allclose to each other
+                name, t = mut["nudge"]
+                arr = np.array(m.get(name))
+                j = rng.randrange(arr.size)
+                side = H.last_nudge_side = -getattr(H, "last_nudge_side", 1)
+                arr.flat[j] = np.asarray(float(t) * (1 + side * 1e-9)).astype(arr.dtype)
+                new = {name: arr}
+                mut["then_data"] = (name, t, j)
+            else:
+                for n in mut["names"]:
+                    a = W.gen_values(rng, W.COMP_KINDS[n], m.shape)
+                    if mut.get("dtype"):
+                        a = W.cast_variant(rng, m.kind(n), a)
+                        ctx.count("class:update_with_other_dtype")
+                    new[n] = a
+            if new:
+                H.data_undo.append((di, {n: np.array(m.get(n)) for n in new}))
+                del H.data_undo[:-6]
+            handed = {}
             for n, a in new.items():
-                m.set(n, a)
-            mapping = {}
-            for n, a in new.items():
-                cid = d.id[n]
-                mapping[cid if mut["key"] == "cid" else d.get_component(cid)] = np.array(a)
-            call = lambda: d.update_components(mapping)
+                if mut.get("layout"):
+                    handed[n], how = W.layout_variant(rng, a)
+                    ctx.count("class:update_layout:" + how)
+                else:
+                    handed[n] = np.array(a)
+            if op == "add_component_existing_cid":
+                name = mut["names"][0]
+                m.set(name, new[name])
+                call = lambda: d.add_component(handed[name], d.id[name])
+            else:
+                mapping = {}
+                if variant == "bad_first":
+                    mapping[d.id[mut["bad"]]] = np.zeros(tuple(x + 1 for x in m.shape))
+                for n, a in handed.items():
+                    cid = d.id[n]
+                    mapping[cid if mut["key"] == "cid" else d.get_component(cid)] = a
+                if variant == "bad_last":
+                    mapping[d.id[mut["bad"]]] = np.zeros(tuple(x + 1 for x in m.shape))
+                expect_raise = variant in ("bad_first", "bad_last")
+                if not expect_raise:
+                    for n, a in new.items():
+                        m.set(n, a)
+                if variant == "reentrant_update":
+                    # a listener updates another column of the same dataset while the first change is being broadcast
+                    inner = {}
+                    for n in mut["inner"]:
+                        a = W.gen_values(rng, W.COMP_KINDS[n], m.shape)
+                        m.set(n, a)
+                        inner[d.id[n]] = np.array(a)
+                    inner_call = lambda: d.update_components(inner)
+                call = lambda: d.update_components(mapping)
+        elif op == "add_component_link_existing_cid":
+            a, k, b = mut["spec"]
+            m.derived = (a, k, b)
+            call = lambda: d.add_component_link(d.id[a] * k + d.id[b], d.id["der"])
         else:
             names = [c[0] for c in m.comps]
-            src = W.gen_data_model(rng, "d%d_r%d" % (di, len(H.mutlog)), tuple(mut["shape"]), names)
+            src = W.gen_data_model(rng, "d%d_r%d" % (di, len(H.mutlog)), tuple(mut["shape"]),
+                                   [n for n in names if n in W.COMP_KINDS], dtypes=H.dtypes)
             src.restrict = m.restrict
             if mut["extra"] and "q" not in names:
                 src.comps.append(["q", "float", W.gen_values(rng, "float", src.shape)])
             H.models[di] = src
-            source = W.build_data(src)
+            H.extra_comps = []
+            H.data_undo = [u for u in H.data_undo if u[0] != di]
+            source = W.build_data(src, rng if H.layouts else None)
             call = lambda: d.update_values_from_data(source)
             if mut["new_shape"]:
                 for r in H.reads:
                     if r["d"] == di and r.get("view") is not None:
                         r["dead"] = True
                 ctx.count("reads_dropped_view_of_old_shape")
+        if expect_raise:
+            # fault sequence: the call must fail; whatever it left behind is the current data (read back through the
+            # public API), and every later read has to agree with a twin holding exactly that
+            try:
+                call()
+                ctx.count("expected_failure_did_not_fail:update_components")
+            except Exception as e:
+                ctx.count("mutation_failed_as_intended:" + type(e).__name__)
+            for c in m.comps:
+                if c[1] != "cat":
+                    c[2] = np.array(d[d.id[c[0]]])
+            try:
+                twin = twin_of(H)
+            except Exception as e:
+                ctx.count("twin_build_failed:" + type(e).__name__)
+                return False
+            verify(H, H.reads, twin, mut, False)
+            H.last_mut = None
+            return True
         try:
             twin = twin_of(H)
         except Exception as e:
             ctx.count("twin_build_failed:" + type(e).__name__)
             return False
-        if H.probe is not None and rng.random() < 0.6:
+        if H.probe is not None and (inner_call is not None or rng.random() < 0.6):
             some = [r for r in H.reads if rng.random() < 0.6]
-            H.probe.todo = lambda: verify(H, some, twin, mut, True)
+
+            def todo():
+                if inner_call is not None:
+                    inner_call()
+                verify(H, some, twin, mut, True)
+            H.probe.todo = todo
         try:
             call()
         except Exception as e:
@@ -509,6 +750,80 @@ def perform(H, mut):
             return False
         if H.probe is not None:
             H.probe.todo = None
+        verify(H, H.reads, twin, mut, False)
+        H.last_mut = mut if op == "update_components" and not variant else None
+        if variant == "near_equal_values" and not mut.get("second_half"):
+            return perform(H, dict({k: v for k, v in mut.items() if k != "then_data"}, second_half=True))
+        return True
+    if op == "component_bookkeeping":
+        di = mut["d"]
+        m, d = H.models[di], live.datas[di]
+        how = mut["how"]
+        if how == "remove" and not H.extra_comps:
+            how = "add"
+        ctx.count("mutations:component_bookkeeping:" + how)
+        try:
+            if how == "reorder":
+                order = list(d.components)
+                rng.shuffle(order)
+                d.reorder_components(order)
+            elif how == "add":
+                name = "x%d" % len(H.mutlog)
+                arr = W.gen_values(rng, "float", m.shape)
+                # not always at the end: a new column may come before existing ones in the model the twin is built from
+                m.comps.insert(rng.randrange(len(m.comps) + 1), [name, "float", arr])
+                d.add_component(np.array(arr), name)
+                H.extra_comps.append(name)
+            else:
+                name = H.extra_comps.pop(rng.randrange(len(H.extra_comps)))     # from the middle, not the end
+                m.comps = [c for c in m.comps if c[0] != name]
+                d.remove_component(d.id[name])
+        except Exception as e:
+            ctx.violation({"kind": "mutation_raised", "mutation": mut["kind"], "how": how, "exception": type(e).__name__},
+                          {"history": describe_history(H), "error": repr(e)[:300]})
+            return False
+        twin = twin_of(H)
+        verify(H, H.reads, twin, mut, False)
+        return True
+    if op == "remove_subset_group":
+        k = mut["k"]
+        live.dc.remove_subset_group(live.groups.pop(k))
+        H.registered = [x for x in H.registered if x != k]
+        for key in [key for key in live.subsets if key[0] == k]:
+            del live.subsets[key]
+        for r in H.reads:       # the state lives on as a free-standing one
+            if r.get("s") == k and (r.get("via") == "subset" or r["k"] in ("index_list", "subset_values")):
+                r["dead"] = True
+        twin = twin_of(H)
+        verify(H, H.reads, twin, mut, False)
+        return True
+    if op == "dc_remove_readd":
+        d = live.datas[mut["d"]]
+        try:
+            live.dc.remove(d)
+            live.dc.append(d)
+        except Exception as e:
+            ctx.violation({"kind": "mutation_raised", "mutation": mut["kind"], "exception": type(e).__name__},
+                          {"history": describe_history(H), "error": repr(e)[:300]})
+            return False
+        # what the collection reports now defines the twin: which links survived, which subset belongs to which group
+        ext = list(live.dc.external_links)
+        for j in list(live.links):
+            if not any(live.links[j] is x for x in ext):
+                del live.links[j]
+        H.links_active = sorted(live.links)
+        live.subsets, live.subsets2 = {}, {}
+        for groups, subsets in ((live.groups, live.subsets), (live.groups2, live.subsets2)):
+            for k, grp in groups.items():
+                for sub in grp.subsets:
+                    for i, dd in enumerate(live.datas):
+                        if dd is sub.data:
+                            subsets[(k, i)] = sub
+        for r in H.reads:
+            if (r.get("via") == "subset" or r["k"] in ("index_list", "subset_values")) and \
+                    (r["s"], r["d"]) not in (live.subsets2 if r.get("g2") else live.subsets):
+                r["dead"] = True
+        twin = twin_of(H)
         verify(H, H.reads, twin, mut, False)
         return True
     if op in ("links_clear_set", "links_remove_list", "links_clear_delayed", "links_add_list", "links_set_all"):
@@ -585,14 +900,32 @@ def perform(H, mut):
         return True
     # ---- mutation of a subset state through its public API
     k = mut["s"]
+    for flag in ("nudge", "revert", "twice"):
+        if mut.get(flag):
+            ctx.count("mutations:setter:" + flag)
+    try:
+        undo = W.capture_undo(live.states[k], mut, W.RefMap(live.datas))
+    except Exception:
+        undo = None
     try:
         W.apply_state_mutation(live.states[k], mut, live.datas)
     except Exception as e:
-        # e.g. CompositeSubsetState.move_to over children whose centers have different arity: the state is in an
-        # undefined condition, nothing more can be asked of it (tallied, not judged here)
+        # e.g. CompositeSubsetState.move_to over children whose centers have different arity (state2 has already moved
+        # when state1 refuses).  Fault sequence: whatever the failed call left behind is the state's current meaning
+        # (read off its getters); later reads must agree with a twin built from that.
         ctx.count("state_mutation_raised:%s:%s" % (mut["op"], type(e).__name__))
-        poison(H, k)
+        record_touch(H, mut)
+        try:
+            twin = twin_of(H)
+        except Exception:
+            poison(H, k)
+            return True
+        verify(H, H.reads, twin, mut, False)
         return True
+    if undo is not None and not mut.get("revert"):
+        H.undo.append(undo)
+        del H.undo[:-8]
+    H.last_mut = mut
     record_touch(H, mut)
     try:
         twin = twin_of(H)
@@ -612,8 +945,10 @@ def poison(H, k):
 
 def mutated_family(H, mut, r):
     op = mut["op"]
-    if op in ("update_components", "update_values_from_data"):
+    if "d" in mut and op not in STATE_OPS:
         return "same_data" if mut["d"] == r["d"] else "other_data"
+    if op == "remove_subset_group":
+        return "group"
     if op.startswith("link"):
         return "link"
     if op == "none":
@@ -628,9 +963,58 @@ def view_class(r):
     return "unhashable" if vk in VIEWS_UNHASHABLE else vk
 
 
+def agree(H, r, a, b):
+    """Equality of two outcomes of one read.  Exact, except for statistics in histories where the live arrays have
+    another memory layout than the twin's contiguous copies: numpy's summation order then differs, so the comparison is
+    relative to the magnitude of the column (1e-9 for 8-byte, 1e-5 for narrower floats)."""
+    if same_outcome(a, b):
+        return True
+    if r["k"] != "stat" or not getattr(H, "layouts", False) or a is None or b is None or a[0] != "ok" or b[0] != "ok":
+        return False
+    x, y = np.asarray(a[1], dtype=float), np.asarray(b[1], dtype=float)
+    if x.shape != y.shape:
+        return False
+    try:
+        col = np.asarray(H.models[r["cid"][1]].get(r["cid"][2]))
+        rtol = 1e-9 if col.dtype.itemsize >= 8 else 1e-5
+        fin = np.abs(col[np.isfinite(col)].astype(float)) if col.dtype.kind in "fiu" else np.array([1.0])
+        atol = rtol * (fin.max() if fin.size else 1.0) * max(1, col.size)
+    except (KeyError, IndexError, TypeError):
+        rtol, atol = 1e-9, 0.0
+    H.ctx.count("statistic_compared_with_relative_tolerance")
+    return bool(np.allclose(x, y, rtol=rtol, atol=atol, equal_nan=True))
+
+
+def fault_reads(H):
+    """Fault sequence: calls that must fail on the live objects right before the valid reads; whatever a failed call
+    leaves behind (flags, half-filled caches) must not matter."""
+    ctx, rng = H.ctx, H.ctx.rng
+    alive = [k for k in range(len(H.live.states)) if k not in H.poisoned]
+    if not alive:
+        return
+    k = rng.choice(alive)
+    st = H.live.states[k]
+    d = H.live.datas[rng.choice(eval_targets(H, k))]
+    some = d.main_components[0]
+    for name, fn in (("too_many_indices", lambda: d.get_mask(st, view=(0,) * (d.ndim + 2))),
+                     ("unknown_statistic", lambda: d.compute_statistic("bogus", some, subset_state=st)),
+                     ("index_out_of_bounds", lambda: st.to_mask(d, (slice(None),) * (d.ndim - 1) + (d.shape[-1] + 5,))),
+                     ("histogram_without_range", lambda: d.compute_histogram([some], range=None, bins=[2], subset_state=st)),
+                     ("foreign_component", lambda: d.get_data(W.ComponentID("nowhere")))):
+        if rng.random() < 0.5:
+            continue
+        try:
+            fn()
+            ctx.count("fault_read_did_not_fail:" + name)
+        except Exception as e:
+            ctx.count("fault_reads:%s:%s" % (name, type(e).__name__))
+
+
 def verify(H, reads, twin, mut, during):
     ctx = H.ctx
     tag = mut["kind"] + (":during_broadcast" if during else "")
+    if not during and mut["op"] != "none" and ctx.rng.random() < 0.3:
+        fault_reads(H)
     for r in reads:
         if r.get("dead"):
             continue
@@ -651,6 +1035,8 @@ def verify(H, reads, twin, mut, during):
         if nontrivial:
             ctx.count("post_mutation_rereads_truth_changed:" + tag)
             ctx.count("truth_changed_kind:" + READ_FAMILY[r["k"]])
+            if mut.get("variant"):
+                ctx.count("post_mutation_rereads_truth_changed:variant:" + mut["variant"])
             if mut.get("pressure", 0) > 4096:
                 ctx.count("post_mutation_rereads_truth_changed:after_more_than_4096_memo_entries")
             if mut.get("no_links_left"):
@@ -664,7 +1050,7 @@ def verify(H, reads, twin, mut, during):
                             "after_live": brief(lo)})
         if lo[0] == "exc" and to[0] == "exc" and lo[1] == to[1]:
             ctx.count("both_raised:%s:%s" % (r["k"], lo[1]))
-        if not same_outcome(lo, to):
+        if not agree(H, r, lo, to):
             if mut["op"] == "none":
                 # never-mutated world disagrees with its twin: the oracle itself is unreliable here
                 raise RuntimeError("live and twin disagree before any mutation: %r" % (describe_read(r),))
@@ -763,18 +1149,27 @@ def memo_stale_paths(live_state, twin_state, live_data, twin_data):
     return out
 
 
-def culprit_nodes(live_state, twin_state, live_data, twin_data, view):
-    """Classes of the minimal subtrees of the live state whose own mask differs from the twin's."""
+def culprit_nodes(live_state, twin_state, live_data, twin_data, view, others=()):
+    """Classes of the minimal subtrees of the live state whose own mask differs from the twin's.  `others`: further
+    (live dataset, twin dataset) pairs on which the nodes are compared on the full mask (a mask obtained through a key
+    join is computed - and memoized - on the other dataset)."""
     stale_at = {}
     cls_at = {}
-    try:
-        memo_stale = memo_stale_paths(live_state, twin_state, live_data, twin_data)
-    except Exception:
-        memo_stale = set()
+    pairs = [(live_data, twin_data, view)] + [(a, b, None) for a, b in others]
+    memo_stale = set()
+    for ld, td, _ in pairs:
+        try:
+            memo_stale |= memo_stale_paths(live_state, twin_state, ld, td)
+        except Exception:
+            pass
     for (path, ln), (_, tn) in zip(W.walk(live_state), W.walk(twin_state)):
-        t = node_outcomes(tn, twin_data, view, False)[0]
-        stale_at[path] = path in memo_stale or any(not same_outcome(x, t)
-                                                   for x in node_outcomes(ln, live_data, view, True))
+        bad = path in memo_stale
+        for ld, td, v in pairs:
+            if bad:
+                break
+            t = node_outcomes(tn, td, v, False)[0]
+            bad = any(not same_outcome(x, t) for x in node_outcomes(ln, ld, v, True))
+        stale_at[path] = bad
         cls_at[path] = type(ln).__name__
     out = []
     for p, s in stale_at.items():
@@ -826,12 +1221,14 @@ def stale(H, r, twin, mut, during, lo, to):
     current = (mut["kind"], mutated_family(H, mut, r))
     if r.get("s") is not None:
         view = r.get("view") if r["k"] == "mask" else None
+        others = [(H.live.datas[i], twin.datas[i]) for i in range(len(H.live.datas)) if i != r["d"]] \
+            if getattr(H, "joins", None) else []
         try:
             cul = culprit_nodes(H.live.states[r["s"]], twin.states[r["s"]], H.live.datas[r["d"]], twin.datas[r["d"]],
-                                view)
+                                view, others)
         except TypeError:   # unhashable/odd view passed by keyword and positionally: fall back to the full mask
             cul = culprit_nodes(H.live.states[r["s"]], twin.states[r["s"]], H.live.datas[r["d"]], twin.datas[r["d"]],
-                                None)
+                                None, others)
         groups = {}
         for path, cls in cul:
             if mut["op"] in STATE_OPS:
@@ -855,7 +1252,7 @@ def stale(H, r, twin, mut, during, lo, to):
         healed = not culprit_nodes(H.live.states[r["s"]], twin.states[r["s"]], H.live.datas[r["d"]],
                                    twin.datas[r["d"]], None)
     else:
-        healed = same_outcome(exec_read(H.live, r), to)
+        healed = agree(H, r, exec_read(H.live, r), to)
     cause = "to_mask_memo" if healed else "not_memo"
     detail = {"read": describe_read(r), "live": brief(lo), "twin": brief(to), "before_mutation": brief(r["last"]),
               "culprit_nodes": [[list(p), c] for p, c in cul], "mutation": {k: v for k, v in mut.items()},
@@ -898,6 +1295,80 @@ def pressure_desc(rng, mode, j, nd):
     raise ValueError(mode)
 
 
+def pressure_oracle(desc, m):
+    """numpy evaluation of the states made by pressure_desc (independent of glue)."""
+    k = desc[0]
+    col = lambda ref: np.asarray(m.get(ref[2]))
+    if k == "ineq":
+        return col(desc[1]) > desc[3][1]
+    if k == "range":
+        x = col(desc[3])
+        return (x >= desc[1]) & (x <= desc[2])
+    if k == "and":
+        return pressure_oracle(desc[1], m) & pressure_oracle(desc[2], m)
+    if k == "not":
+        return ~pressure_oracle(desc[1], m)
+    if k == "multior":
+        out = pressure_oracle(desc[1][0], m)
+        for c in desc[1][1:]:
+            out = out | pressure_oracle(c, m)
+        return out
+    raise ValueError(k)
+
+
+def run_churn_history(ctx, H):
+    """Identity vs equality: thousands of short-lived states are created, evaluated once and dropped, so that object
+    addresses can be reused; every mask is compared with a numpy evaluation of the state's parameters on the values the
+    harness supplied (a cache keyed on the address or hash of a dead state would serve a newcomer the wrong mask)."""
+    import gc
+    rng = ctx.rng
+    n = rng.randint(4, 7)
+    m = W.gen_data_model(rng, "d0", (n,), ["v", "w"])
+    for c in m.comps:       # finite values only: the oracle is plain numpy
+        c[2] = np.where(np.isfinite(c[2]), c[2], 0.25)
+    H.models = [m]
+    d = W.build_data(m)
+    if rng.random() < 0.7:
+        from glue.core import DataCollection
+        DataCollection([d])
+    M = rng.choice([300, 1000, 3000])
+    mode = rng.choice(["ineq", "ineq", "and", "not", "multior"])
+    ctx.count("histories:pressure")
+    ctx.count("histories:churn")
+    ctx.count("histories")
+    keep = []
+    for j in range(M):
+        desc = pressure_desc(rng, mode, rng.randrange(8000), n)
+        st = W.build_state(desc, [d])
+        conv = j % 3
+        got = outcome((lambda: d.get_mask(st)) if conv == 0 else (lambda: st.to_mask(d)) if conv == 1
+                      else (lambda: st.to_mask(d, None)))
+        want = ("ok", pressure_oracle(desc, m))
+        ctx.evaluation(["churn", mode, conv], j > 0)
+        ctx.count("short_lived_states_compared")
+        if not same_outcome(got, want):
+            clear_all_memo()
+            healed = same_outcome(outcome(lambda: d.get_mask(st)), want)
+            ctx.violation({"kind": "stale", "read": "mask", "mutation": "none_short_lived_state", "mutated": "none",
+                           "culprit": W.family(st), "cause": "to_mask_memo" if healed else "not_memo",
+                           "during_broadcast": False, "live": okind(got), "twin": "value"},
+                          {"state": desc, "iteration": j, "live": brief(got), "expected": brief(want),
+                           "model": m.describe()})
+            ctx.count("stale_results")
+            break
+        if rng.random() < 0.02:
+            keep.append(st)         # a few survive, most die
+        del st
+        if j % 97 == 0:
+            gc.collect()
+        if j % 500 == 499:      # values change now and then (the memos are cleared by glue): addresses get recycled
+            name = rng.choice(["v", "w"])
+            arr = np.round(np.array([rng.uniform(-5, 5) for _ in range(n)]), 3)
+            m.set(name, arr)
+            d.update_components({d.id[name]: np.array(arr)})
+    clear_all_memo()
+
+
 def run_pressure_history(ctx, hid):
     """N distinct memoized (state, data, view) combinations of one state class are evaluated with no change of values in
     between (the memo of that class holds N entries), then the values change: a sample of the combinations, read before,
@@ -905,7 +1376,11 @@ def run_pressure_history(ctx, hid):
     rng = ctx.rng
     H = History()
     H.ctx, H.flavour = ctx, "pressure"
-    H.links_pool, H.links_active, H.cross_refs = [], [], {}
+    H.links_pool, H.links_active, H.cross_refs, H.joins = [], [], {}, []
+    H.undo, H.data_undo, H.last_mut, H.extra_comps = [], [], None, []
+    H.dtypes, H.layouts, H.scale = False, rng.random() < 0.3, 1.0
+    if rng.random() < 0.4:
+        return run_churn_history(ctx, H)
     H.with_dc = rng.random() < 0.8
     N = rng.choice(PRESSURE_N)
     by_views = rng.random() < 0.35
@@ -999,8 +1474,8 @@ def run_pressure_history(ctx, hid):
 # ---------------------------------------------------------------- cases
 N_BLOCKS = {"quick": 1600, "thorough": 60000}
 PATTERN = ["table", "cube", "hist", "linked", "prof", "indexed", "aligned", "prof", "linked", "hist", "table", "cube",
-           "hist", "prof", "pressure", "aligned", "pressure"]
-PER_BLOCK = {"table": 5, "cube": 5, "linked": 5, "aligned": 5, "pressure": 2, "indexed": 6, "hist": 2, "prof": 2}
+           "hist", "prof", "pressure", "aligned", "pressure", "joined", "indexed", "joined", "pressure", "pressure"]
+PER_BLOCK = {"table": 5, "cube": 5, "linked": 5, "aligned": 5, "joined": 4, "pressure": 1, "indexed": 6, "hist": 2, "prof": 2}
 
 
 def cases(tier, seed):
@@ -1012,7 +1487,7 @@ def cases(tier, seed):
 def run_case(ctx, case):
     fam, i = case
     for h in range(PER_BLOCK[fam]):
-        if fam in ("table", "cube", "linked", "aligned"):
+        if fam in ("table", "cube", "linked", "aligned", "joined"):
             run_state_history(ctx, fam, [i, h])
         elif fam == "pressure":
             run_pressure_history(ctx, [i, h])
@@ -1040,28 +1515,38 @@ def floors(c, tier):
     if total < 3000:
         out.append("fewer than 3000 post-mutation re-reads compared against a twin (%d)" % total)
     # re-reads of an object read before the mutation whose true answer changed, per mutation kind
-    need = {"update_components": 150, "update_values_from_data": 60, "setter": 150, "move_to": 15, "roi_edit": 12,
-            "link_change": 60, "link_change_atomic_same_derivable_ids": 25, "update_components:during_broadcast": 40, "update_values_from_data:during_broadcast": 15,
-            "indices": 50, "hist:update_components": 25, "hist:viewer_setting": 40, "hist:subset_replace": 8,
-            "prof:update_components": 30, "prof:viewer_setting": 30, "prof:subset_replace": 8}
+    need = {"update_components": 150, "update_values_from_data": 30, "setter": 120, "move_to": 10, "roi_edit": 8,
+            "link_change": 30, "link_change_atomic_same_derivable_ids": 10, "link_change_to_no_links_at_all": 5,
+            "after_more_than_4096_memo_entries": 10,
+            "update_components:during_broadcast": 30, "update_values_from_data:during_broadcast": 8,
+            "indices": 25, "hist:update_components": 12, "hist:viewer_setting": 20, "hist:subset_replace": 4,
+            "prof:update_components": 15, "prof:viewer_setting": 15, "prof:subset_replace": 4,
+            # classes of the adversarial widening round
+            "add_component_existing_cid": 4, "update_components_raised": 4, "variant:near_equal_values": 4,
+            "variant:reentrant_update": 6}
     for k, n in need.items():
         got = c.get("post_mutation_rereads_truth_changed:" + k, 0)
         if got < n:
             out.append("mutation kind %s: only %d re-reads of a previously read object whose true answer changed "
                        "(floor %d)" % (k, got, n))
-    kinds = {"mask": 250, "statistic": 100, "histogram": 80, "component_value": 30, "layer_histogram": 60,
-             "layer_profile": 60, "indexed_value": 30, "indexed_mask": 5, "indexed_statistic": 20,
-             "indexed_histogram": 20}
+    kinds = {"mask": 250, "statistic": 100, "histogram": 80, "component_value": 30, "layer_histogram": 40,
+             "layer_profile": 40, "indexed_value": 20, "indexed_mask": 3, "indexed_statistic": 12,
+             "indexed_histogram": 12}
     for k, n in kinds.items():
         if c.get("truth_changed_kind:" + k, 0) < n:
             out.append("fewer than %d changed-truth re-reads of kind %s (%d)" % (n, k, c.get("truth_changed_kind:" + k, 0)))
     for fl in ("state:table", "state:cube", "state:linked", "state:aligned", "pressure", "indexed", "hist", "prof"):
         if c.get("histories:" + fl, 0) < 5:
             out.append("fewer than 5 histories of family %s" % fl)
-    if c.get("post_mutation_rereads_truth_changed:after_more_than_4096_memo_entries", 0) < 20:
-        out.append("fewer than 20 changed-truth re-reads after one memo had been filled with more than 4096 entries")
-    if c.get("post_mutation_rereads_truth_changed:link_change_to_no_links_at_all", 0) < 10:
-        out.append("fewer than 10 changed-truth re-reads after all links of pixel-aligned datasets were removed at once")
+    classes = {"histories:state:joined": 2, "histories:churn": 1, "short_lived_states_compared": 300,
+               "class:scale=1e-10": 3, "class:scale=1e+12": 3, "class:dtype_variants": 10, "class:layout_variants": 10,
+               "class:update_with_other_dtype": 10, "mutations:setter:nudge": 4, "mutations:setter:revert": 2,
+               "mutations:variant:bad_last": 3, "mutations:component_bookkeeping": 3}
+    for k, n in classes.items():
+        if c.get(k, 0) < n:
+            out.append("class counter %s is %d (floor %d)" % (k, c.get(k, 0), n))
+    if sum(v for k, v in c.items() if k.startswith("fault_reads:")) < 20:
+        out.append("fewer than 20 deliberately failing reads were interleaved")
     bad = sum(v for k, v in c.items() if k.startswith("twin_build_failed"))
     if bad > 0.02 * max(1, c.get("histories", 0)):
         out.append("twin could not be built in %d histories" % bad)
